@@ -32,11 +32,15 @@ AnswerWith(log, hmap, d, q, sr) ==
   LET cur == Len(log) - 1
       qv  == Min(q, cur) IN
   IF sr.value = NoValue
-  THEN [err |-> FALSE, exists |-> FALSE, actual |-> qv, query |-> q, current |-> cur,
-        hyper |-> sr.path, history |-> <<>>, hasHistory |-> FALSE]
+  (* query: the version the proof is computed for (a query beyond the current version is
+     answered at the current one; since fix a-qv the answer says so). hidx/hver: index and
+     version of the in-process history proof, which the wire form does not carry *)
+  THEN [err |-> FALSE, exists |-> FALSE, actual |-> qv, query |-> qv, current |-> cur,
+        hyper |-> sr.path, history |-> <<>>, hasHistory |-> FALSE, hidx |-> qv, hver |-> qv]
   ELSE IF sr.value <= qv
-       THEN [err |-> FALSE, exists |-> TRUE, actual |-> sr.value, query |-> q, current |-> cur,
-             hyper |-> sr.path, history |-> ProveMembership(log, sr.value, qv), hasHistory |-> TRUE]
+       THEN [err |-> FALSE, exists |-> TRUE, actual |-> sr.value, query |-> qv, current |-> cur,
+             hyper |-> sr.path, history |-> ProveMembership(log, sr.value, qv), hasHistory |-> TRUE,
+             hidx |-> sr.value, hver |-> qv]
        ELSE [err |-> TRUE]
 
 Answer(log, hmap, d, q) == AnswerWith(log, hmap, d, q, HSearch(hmap, d))
@@ -63,6 +67,17 @@ DigestVerifyPinned(a, d, histRoot, hyperRoot) ==
   IF a.exists /\ a.actual <= a.query
   THEN hy /\ VerifyMembership(a.history, a.actual, a.query, d, histRoot)
   ELSE hy
+
+(***************************************************************************)
+(* The public wire form (protocol.MembershipResult) drops the history       *)
+(* proof's own index/version and the hyper value; ToBalloonProof rebuilds    *)
+(* them from ActualVersion / QueryVersion.  In-process verification uses     *)
+(* the proof's own fields.                                                   *)
+(***************************************************************************)
+DigestVerifyInProcess(an, key, d, histRoot, hyperRoot) ==
+  /\ an.exists /\ an.actual <= an.query
+  /\ HVerify(an.hyper, key, d, an.actual, hyperRoot)
+  /\ VerifyMembership(an.history, an.hidx, an.hver, d, histRoot)
 
 (* ground truth of the claim an accepted answer makes *)
 ClaimTrue(log, a, d) ==
